@@ -53,6 +53,11 @@ class Form(Node):
     def __str__(self):  # pragma: no cover
         return self.name
 
+    def __reduce__(self):
+        """Forms are singletons compared by identity: pickle and deepcopy hand
+        back the registered object"""
+        return get_form, (self.name,)
+
     def __call__(self, orbit, new_form):
         """Gives the result of the transformation without in-place modifications
 
